@@ -16,7 +16,7 @@ CONFIG = dict(
                  "stream read-back theorems: frame size < 2^62 (allocatable); a stream is a byte string then EOF, fragmentation does not matter to read_exact (varied in the harness)",
                  "the property is silent about a failing or panicking body callback of write_message_streaming: such cases are run, nothing is asserted"],
     manifest=dict(
-        text="Lean 4 theorems over a model of header/message framing: the layout tables re-extracted from Header::encode/decode equal the REPE v1 layout (decide), encode is 48 bytes with little-endian fields at the spec offsets, decode∘encode = id for every in-range header (reserved bits, unknown format codes), one encoding, and to_vec = write_to = into_wire_bytes (every body capacity, in-place and fresh branch) = write_message_streaming; TCP echo framing (blocking: write_message_streaming, async: write_view_response) = WebSocket stamping; owned and borrowing response/error constructors agree; frames read back by the four stream readers (also pipelined through one reused buffer) are the frames written; serialized_len = emitted length. The write sequence of every buffered route, the in-place steps, the length patches, the builder, the stamping guard, the echo rule and the servers' call sites are re-read from the source on every run (source_routes_agree, source_shapes: an unrecognised statement at such a place is a pessimistic fact). Tied to /repo by fact extraction plus a differential run of every emission route of the real crate against the model executable and an independent layout oracle: sinks that take few bytes, interrupt or stay pending, several frames through one writer, recycled body buffers, fragmented readers, reused read buffers across streams and after errors, every builder setter order, the library's own response/error constructors, slice-writer twins, body callbacks that err/panic/are slow/re-enter.",
+        text="Lean 4 theorems over a model of header/message framing: the layout tables re-extracted from Header::encode/decode equal the REPE v1 layout (decide), encode is 48 bytes with little-endian fields at the spec offsets, decode∘encode = id for every in-range header (reserved bits, unknown format codes), one encoding, and to_vec = write_to = into_wire_bytes (every body capacity, in-place and fresh branch) = write_message_streaming; TCP echo framing (blocking: write_message_streaming, async: write_view_response) = WebSocket stamping; owned and borrowing response/error constructors agree; frames read back by the four stream readers (also pipelined through one reused buffer) are the frames written; serialized_len = emitted length. The write sequence of every buffered route, the in-place steps, the length patches, the builder, the stamping guard, the echo rule and the servers' call sites are re-read from the source on every run (source_routes_agree, source_shapes: an unrecognised statement at such a place is a pessimistic fact). Tied to /repo by fact extraction plus a differential run of every emission route of the real crate against the model executable and an independent layout oracle: sinks that take few bytes, interrupt or stay pending, several frames through one writer, recycled body buffers, fragmented readers, reused read buffers across streams and after errors, every builder setter order, the library's own response/error constructors, slice-writer twins, body callbacks that err/panic/are slow/re-enter, every query and body length 0..520 (thorough 0..4200 and 2^k±3), runs of 1..17 (thorough ..1000) frames through one writer / reader / client, cut-point delivery, frames at the 8 KiB buffer sizes, a peer that stops reading before a multi-MiB request, observers from two threads during emission.",
         note="Lean kernel; axioms propext/Classical.choice/Quot.sound only; extractor + harness + driver trusted; Vec primitives modelled as list operations; server-side framing over sockets is exercised by the `dispatch` family (raw responses of five real endpoints compared pairwise and with the model); client-side emission over sockets by the `emit` family (raw request frames of the three real clients captured by a recording peer and compared with the builder frame: every call/notify entry point incl. the _with_timeout twins, typed JSON/BEVE and registry helpers, batches, forward_message of arbitrary consistent messages, calls after an unanswered call). Not driven: UniUdpClient (its frame is builder + into_wire_bytes, both modelled) and the wasm client.",
         technique="Lean 4 proof (round-trip/algebraic laws) + regenerated layout facts + differential correspondence"),
 )
